@@ -575,6 +575,9 @@ static void kind_matrix(void) {
 /* the object bound in the handler IS the one that was thrown (same object, not an equal one): stack, heap and static
    objects, thrown from the body, from a callee, through a non-matching inner filter and from a handler */
 static void __attribute__((noinline)) thrower(var x) { throw(x, "thrown by a callee"); }
+static int queue_at, queue_reads;
+static var next_pending(void) { queue_reads++; return KIND[queue_at++ % 4]; }
+static void __attribute__((noinline)) throw_next_pending(void) { throw(next_pending(), "thrown by a callee"); }
 static void thrown_object_identity(void) {
   var heap_i = new_root(Int, $I(77)), heap_s = new_root(String, $S("heap text"));
   for (int kind = 0; kind < 6; kind++) {
@@ -598,6 +601,26 @@ static void thrown_object_identity(void) {
     }
   }
   del_root(heap_i); del_root(heap_s);
+  /* the thrown object is written as an expression with an effect (the next pending error of a queue): it is evaluated
+     once, and the object that evaluation produced is the one the handlers see -- from a body, a callee and a handler */
+  for (int route = 0; route < 3; route++) {
+    for (int start = 0; start < 4; start++) {
+      queue_at = start; queue_reads = 0;
+      var first = KIND[start % 4];
+      volatile var bound = NULL; volatile int matching = 0, enclosing = 0;
+      size_t d0 = len(current(Exception));
+      switch (route) {
+        case 0: try { try { throw(next_pending(), "from the body"); } catch (e in first) { bound = e; matching++; } } catch (e2) { enclosing++; } break;
+        case 1: try { try { throw_next_pending(); } catch (e in first) { bound = e; matching++; } } catch (e2) { enclosing++; } break;
+        default: try { try { throw(ResourceError, "first"); } catch (e) { throw(next_pending(), "from a handler"); } } catch (e2 in first) { bound = e2; matching++; } break;
+      }
+      vh_evals(3);
+      if (queue_reads != 1) { vh_violation("C07:identity:thrown-expression-evaluated-more-than-once", "route %d: the expression naming the thrown object was evaluated %d times", route, queue_reads); }
+      if (matching != 1 || enclosing != 0 || bound != first) { vh_violation("C07:identity:bound-object-is-not-the-thrown-one", "route %d: thrown %s (first value of the expression): matching handler ran %d times bound to %s, enclosing handler %d times", route, c_str(first), matching, bound ? c_str(bound) : "nothing", enclosing); }
+      if (len(current(Exception)) != d0) { vh_violation("C07:kinds:depth-not-restored", "depth %zu before, %zu after", d0, len(current(Exception))); }
+      vh_count("throws_of_an_expression_with_an_effect");
+    }
+  }
 }
 
 static void fixed(void) {
